@@ -1,5 +1,5 @@
 # replay of a bounded stand-in violation (C13): re-run native/c13_tdm.py
 import sys
-print("calls ('unroll2', 'space1', 'lock'): the program no longer runs: IndexError: list index out of range")
+print('N=[2, 1] bands measured in order [1, 0] timebins=2 shots=2: samples[0,1,1] identifies pulse 11, expected pulse 12 (band 1)')
 print('REPLAY-VIOLATION')
 sys.exit(1)
